@@ -35,6 +35,33 @@ pub enum BitsSpec {
 }
 
 impl BitsSpec {
+    /// Clamp sizes (for specifications that did not come from the strategies).
+    pub fn clamp(&mut self, max_len: usize) {
+        match self {
+            BitsSpec::Bools(v) => v.truncate(max_len),
+            BitsSpec::Runs(runs, tail) => {
+                let each = (max_len / (2 * runs.len().max(1) + 1)).max(1) as u32;
+                for (g, l) in runs.iter_mut() {
+                    *g %= each + 1;
+                    *l %= each + 1;
+                }
+                *tail %= each + 1;
+            }
+            BitsSpec::Recipe(len, kind, _, _) => {
+                *len %= max_len + 1;
+                match kind {
+                    Kind::Uniform(p) => *p %= 65537,
+                    Kind::Clustered(a, b) => {
+                        *a = (*a % 5000).max(1);
+                        *b = (*b % 100_000).max(1);
+                    }
+                    Kind::PackedSpread(_, s, _) => *s %= 64,
+                    _ => {}
+                }
+            }
+        }
+    }
+
     pub fn expand(&self) -> Bits {
         match self {
             BitsSpec::Bools(v) => Bits::from_bools(v),
